@@ -157,41 +157,26 @@ func (e *Engine) implementers(t types.Type) []types.Type {
 		return r
 	}
 	e.mu.Unlock()
-	var out0 []types.Type
-	defer func() {
-		// keep only types that can actually be the dynamic type behind this interface
-		var keep []types.Type
-		for _, ct := range out0 {
-			if e.canBeBehind(ct, it) {
-				keep = append(keep, ct)
-			}
-		}
-		if keep == nil {
-			keep = []types.Type{}
-		}
-		e.mu.Lock()
-		e.implCache[key] = keep
-		e.mu.Unlock()
-	}()
-	out := out0
-	defer func() { out0 = out }()
+	out := []types.Type{}
 	for _, n := range e.named {
 		if _, isIface := n.Underlying().(*types.Interface); isIface {
 			continue
 		}
 		// struct types are used through pointers (value structs boxed into repository interfaces
-		// are checked for separately by the boxing sweep); other named types by value
+		// would show up in the boxing scan); other named types by value
 		_, isStruct := n.Underlying().(*types.Struct)
+		var cand types.Type
 		if p := types.NewPointer(n); isStruct && types.Implements(p, it) {
-			out = append(out, p)
+			cand = p
 		} else if types.Implements(n, it) {
-			out = append(out, n)
+			cand = n
 		} else if types.Implements(p, it) {
-			out = append(out, p)
+			cand = p
 		}
-	}
-	if out == nil {
-		out = []types.Type{}
+		// keep only types that can actually be the dynamic type behind this interface
+		if cand != nil && e.canBeBehind(cand, it) {
+			out = append(out, cand)
+		}
 	}
 	e.mu.Lock()
 	e.implCache[key] = out
